@@ -47,6 +47,26 @@ def load_registry(pid):
     return reg, mod
 
 
+def load_facts(reg):
+    """values of module-level globals the verified bodies branch on (e.g. version switches), read from the real
+    modules under /venv/bin/python on every run"""
+    req = getattr(reg, 'fact_globals', [])
+    reg.global_values = {}
+    if not req:
+        return
+    env = dict(os.environ)
+    env['PYTHONPATH'] = os.environ.get('VERIF_REPO', '/repo') + os.pathsep + VERIF
+    try:
+        p = subprocess.run([NATIVE_PY, '-m', 'replay.facts', json.dumps(req)], cwd=VERIF, env=env, capture_output=True,
+                           text=True, timeout=120)
+        vals = json.loads(p.stdout.strip().splitlines()[-1])
+    except Exception:
+        vals = {}
+    for k, val in vals.items():
+        if not isinstance(val, dict):
+            reg.global_values[k] = val
+
+
 def known_findings():
     p = os.path.join(VERIF, 'known_findings.json')
     if not os.path.exists(p):
@@ -104,6 +124,7 @@ def check(pid, tier, seed):
     reg, mod = load_registry(pid)
     src = SourceIndex()
     load_enums(reg, src)
+    load_facts(reg)
     v = Verifier(src, reg, pid)
     func_reports = []
     for key, c in reg.contracts.items():
